@@ -279,10 +279,24 @@ protected:
       core::BufferView view(localBuffer.data() + offset,
                             localBuffer.size() - offset);
       std::size_t consumed = 0;
-      auto frame = WebSocketFrame::parse(view, consumed);
+      WsParseStatus status = WsParseStatus::Incomplete;
+      auto frame = WebSocketFrame::parse(view, consumed, status, _maxFrameSize);
 
       if (!frame)
       {
+        // Bytes that can never become an acceptable frame must not be kept as
+        // "incomplete": nothing behind them would ever be parsed and the
+        // session buffer would grow with every read.
+        if (status == WsParseStatus::ProtocolError)
+        {
+          failConnection(sid, 1002, "Protocol error", "Received malformed frame");
+          return;
+        }
+        if (status == WsParseStatus::TooLarge)
+        {
+          failConnection(sid, 1009, "Message Too Big", "Frame exceeded maxFrameSize");
+          return;
+        }
         break;
       }
 
@@ -308,6 +322,24 @@ protected:
   }
 
 private:
+  /// \brief Fail the WebSocket connection (RFC 6455 Section 7.1.7): send a Close
+  /// frame with the given code, report the error, drop the per-session state
+  /// (no further input is buffered or delivered) and close the TCP connection.
+  void failConnection(SessionId sid, std::uint16_t code, const std::string& reason,
+                      const std::string& error)
+  {
+    sendClose(sid, code, reason);
+    if (_onError)
+    {
+      _onError(sid, error);
+    }
+    {
+      std::lock_guard<std::mutex> lock(_wsMutex);
+      _sessions.erase(sid);
+    }
+    closeSession(sid);
+  }
+
   void handleFrame(SessionId sid, const WebSocketFrame& frame)
   {
     switch (frame.opcode)
